@@ -41,8 +41,14 @@ ASSUMPTIONS = [
     "is compared modulo the implementation-set keys weighted/type (weightedness itself is "
     "compared through is_weighted and the weights)",
     "MultiplexHypergraph.get_existing_layers is not compared (layers of removed records: unspecified)",
-    "hMETIS: one space-separated header 'E N [fmt]', fmt in {absent,0,1,10,11}; distinct node sets; "
-    "tokens separated by one or more spaces; vertex-weight lines iff fmt >= 10; '%' comment lines "
+    "every round-trip case saves the object twice: as built, and again after "
+    "set_hypergraph_metadata(<drawn dict>) (wholesale replacement, the implementation-set fields "
+    "are gone) and, when weighted, after one weight became a non-integer float; then the same "
+    "add_edge/remove_edge calls are applied to the original and to the loaded object and the "
+    "observations compared once more (the loaded object is the same hypergraph, not a frozen picture)",
+    "hMETIS: header 'E N [fmt]', fmt in {absent,0,1,10,11}; distinct node sets; tokens of the "
+    "header and of the hyperedge lines separated by one or more spaces (no tabs), optional leading "
+    "and trailing blanks; vertex-weight lines iff fmt >= 10; '%' comment lines "
     "and blank lines anywhere; which of the N vertices become nodes is not part of the statement "
     "(any set between the union of the hyperedges and 1..N is accepted)",
     "HIF: documents with the three lists nodes/edges/incidences, unique node and edge ids, no "
